@@ -153,7 +153,8 @@ def check(case):
     # check and is refused): constructing, or refusing to construct, evaluates nothing either
     import lazy_dataset as _ld
     for what, attempt in (('items()', lambda: ds.items()), ('key_zip(self)', lambda: ds.key_zip(ds)),
-                          ('key_zip(new)', lambda: _ld.key_zip(ds, _ld.new({'a': 1})))):
+                          ('key_zip(new)', lambda: _ld.key_zip(ds, _ld.new({'a': 1}))),
+                          ('zip(self)', lambda: ds.zip(ds)), ('zip(new)', lambda: _ld.zip(_ld.new([1]), ds))):
         try:
             attempt()
         except observe.PASS_THROUGH:
